@@ -146,6 +146,24 @@ func source(br *bufio.Reader, rk int, b []byte) io.Reader {
 	return br
 }
 
+// pat is the deterministic payload of the long-field family: every byte value
+// occurs, and a shift by any amount below 64 KiB changes it.
+func pat(seed byte, n int) []byte {
+	b := make([]byte, n)
+	for i := range b {
+		b[i] = byte(i*7 + i/253 + int(seed))
+	}
+	return b
+}
+
+// abbr quotes a payload, shortening long ones.
+func abbr(b []byte) string {
+	if len(b) <= 48 {
+		return strconv.Quote(string(b))
+	}
+	return fmt.Sprintf("%q...(%d bytes)", b[:16], len(b))
+}
+
 type failure struct {
 	kind   string // see classify
 	idx    int    // record index at which it happened (len(recs) = the read after the last record)
@@ -165,15 +183,19 @@ func gotString(l *layout, g *kgo.Record) string {
 		}
 		switch t {
 		case tTopic:
-			s += fmt.Sprintf("topic=%q ", g.Topic)
+			s += "topic=" + abbr([]byte(g.Topic)) + " "
 		case tKey:
-			s += fmt.Sprintf("key=%q ", g.Key)
+			s += "key=" + abbr(g.Key) + " "
 		case tValue:
-			s += fmt.Sprintf("value=%q ", g.Value)
+			s += "value=" + abbr(g.Value) + " "
 		case tHdrs:
 			s += "headers=["
-			for _, h := range g.Headers {
-				s += fmt.Sprintf("%q:%q ", h.Key, h.Value)
+			for i, h := range g.Headers {
+				if i == 4 && len(g.Headers) > 8 {
+					s += fmt.Sprintf("...(%d headers) ", len(g.Headers))
+					break
+				}
+				s += abbr([]byte(h.Key)) + ":" + abbr(h.Value) + " "
 			}
 			s += "] "
 		case tPart:
@@ -399,6 +421,11 @@ func classify(l *layout, recs []rec, fl *failure, wantWhat bool) (key, what stri
 			return key, what
 		}
 	}
+	// failures that only long fields / many headers provoke get their own class
+	sfx := ""
+	if l.family == "long-field" || l.family == "many-headers" {
+		sfx = "@" + l.family
+	}
 	switch fl.kind {
 	case "field-mismatch":
 		f := l.nf[fl.target].label()
@@ -410,11 +437,11 @@ func classify(l *layout, recs []rec, fl *failure, wantWhat bool) (key, what stri
 			}
 		}
 		if fl.target == tHdrs {
-			return "field-mismatch:headers", "the headers read back differ from the headers written (count " + f + ", key size " + l.hk.label() + ", value size " + l.hv.label() + ")"
+			return "field-mismatch:headers" + sfx, "the headers read back differ from the headers written (count " + f + ", key size " + l.hk.label() + ", value size " + l.hv.label() + ")"
 		}
-		return "field-mismatch:" + targetNames[fl.target] + ":" + f, "the record read back differs from the record written in field " + targetNames[fl.target]
+		return "field-mismatch:" + targetNames[fl.target] + ":" + f + sfx, "the record read back differs from the record written in field " + targetNames[fl.target]
 	}
-	return fl.kind, fl.kind + ": " + fl.err
+	return fl.kind + sfx, fl.kind + ": " + fl.err
 }
 
 func fieldEq2(target int, dec []byte, got *kgo.Record) bool {
